@@ -39,6 +39,8 @@ func init() {
 			{ID: "C19-R13", Title: "a byte of a string does not stand for a character", Floor: 1, Run: stringBytesAreNotCharacters},
 			{ID: "C19-R14", Title: "Repeat counts from scripts are validated", Floor: 1, Run: repeatCountsAreValidated},
 			{ID: "C19-R15", Title: "containers never encode as JSON null", Floor: 2, Run: containersNeverEncodeAsNull},
+			{ID: "C19-R16", Title: "integer divisors from scripts are tested", Floor: 1, Run: scriptDivisionsAreGuarded},
+			{ID: "C19-R17", Title: "byte_slice methods call their bytes namesake", Floor: 10, Run: byteSliceMethodsCallTheirNamesake},
 		},
 	})
 }
